@@ -139,6 +139,8 @@ def main(run):
     # ---------------- batch modes
     for i in range(N_BATCH[run.tier]):
         d, m, n_inner = rnd.choice([1, 2, 3, 4]), rnd.choice([1, 2, 3, 5, 8]), rnd.choice([1, 2, 3])
+        if i % 40 == 7:        # data sets around block sizes (255 / 256 / 257 / 512 rows), small games
+            d, m, n_inner = rnd.choice([1, 2]), [255, 256, 257, 512, 256][(i // 40) % 5], 1
         names = make_names(rnd.choice(["str", "int", "float"]), d)
         clock = Clock()
         model = Models(rnd.choice(["scalar", "multi", "grow", "ignore", "positional", "coarse", "coarse", "top2", "top2"]), names, exact=True, clock=clock)
